@@ -45,6 +45,7 @@ for p in props:
                  "technique": ("contract-based deductive verification (AST->VC over the real functions, loop invariants, inductive lemmas, z3); "
                                "run-time contracts on the real code as bounded stand-in") if level == "proof" else
                               "run-time contract checking of the real code over bounded domains (bounded stand-in; no deductive proof in reach)",
-                 "explanation": n.get("why_not_proof", ""), "trusted": n.get("trusted", [])}
+                 "explanation": n.get("why_not_proof", ""), "trusted": n.get("trusted", []),
+                 "frames_of_all_contracts": bool(n.get("frames_of_all_contracts"))}
 json.dump(meta, open(os.path.join(ROOT, "property_meta.json"), "w"), indent=1)
 print({k: v.get("level", "n/a") for k, v in meta.items()})
